@@ -19,7 +19,7 @@ _TEXTS = {}
 def doc_names():
     from harness import mutate
 
-    return sorted(mutate.DOCS)
+    return sorted(mutate.DOCS) + sorted(mutate.REAL_DOCS)
 
 
 def doc_text(name):
@@ -30,9 +30,15 @@ def doc_text(name):
         from xsdata.formats.dataclass.serializers import XmlSerializer
         from xsdata.formats.dataclass.serializers.config import SerializerConfig
 
-        cls, obj = mutate.DOCS[name]
+        cls, obj = doc_object(name)
         _TEXTS[name] = (cls, XmlSerializer(context=XmlContext(), config=SerializerConfig(xml_declaration=False)).render(obj))
     return _TEXTS[name]
+
+
+def doc_object(name):
+    from harness import mutate
+
+    return mutate.DOCS[name] if name in mutate.DOCS else mutate.REAL_DOCS[name]
 
 
 def handlers():
